@@ -7,7 +7,7 @@
   look-ahead to the state (e.g. "EOF was returned ⇒ a reader failure has been recorded") are instances.
 -/
 import CedarGo.Model.Text.Scanner
-namespace CedarGo.Text
+namespace CedarGo.Text.Lx
 
 structure Sim {σ₁ σ₂ : Type} (S₁ : Src σ₁) (S₂ : Src σ₂) (R : Bool → Rune → σ₁ → σ₂ → Prop) : Prop where
   next : ∀ m c a b, R m c a b → (S₁.next a).1 = (S₂.next b).1 ∧ R m (S₁.next a).1 (S₁.next a).2 (S₂.next b).2
@@ -240,4 +240,4 @@ theorem tokenize_sim (F : Nat) {m a b} (h : R m runeBOF a b) : tokenize S₁ F a
   tokenizeLoop_sim H F F h
 
 end
-end CedarGo.Text
+end CedarGo.Text.Lx
